@@ -11,8 +11,10 @@
      sympy2ast_vars             variables of the term = variables of the symbols of the tree, in order
    Part B  Goebner._to_sympy_term
      to_sympy_term_sound        eval s t = v  ->  value of the sympy tree = v, PROVIDED every `/` and `\` has a
-                                non-negative dividend and a positive divisor [divs_nonneg]
-     div_negative_refuted, mod_negative_refuted, mod_negdivisor_refuted   the proviso is necessary
+                                non-negative dividend and a positive divisor [divs_nonneg] and every `**` a
+                                non-negative exponent [pows_nonneg]
+     div_negative_refuted, mod_negative_refuted, mod_negdivisor_refuted, pow_negative_refuted
+                                the provisos are necessary
      converse_refuted           sympy's value can be an integer where clingo's term is undefined
      to_sympy_term_registers    symbols of the tree are registered in _fo_vars/_constants, except `c()`
      fun0_not_registered        ... and the witness for the exception *)
@@ -623,6 +625,20 @@ Fixpoint divs_nonneg (s: subst) (t: term) : Prop :=
   | _ => True
   end.
 
+(* clingo: `b ** x` with a negative exponent x is 0 (b <> 0) or undefined (b = 0); sympy: the rational b^x.
+   They agree iff the exponent is non-negative. *)
+Fixpoint pows_nonneg (s: subst) (t: term) : Prop :=
+  match t with
+  | TUn _ a => pows_nonneg s a
+  | TBin o l r =>
+      pows_nonneg s l /\ pows_nonneg s r /\
+      match o with
+      | BPow => forall b, eval s r = Some (SNum b) -> (0 <= b)%Z
+      | _ => True
+      end
+  | _ => True
+  end.
+
 Definition vars_agree (s: subst) (sg: skey -> Z) (t: term) : Prop :=
   forall x, In x (vars_term t) -> s x = SNum (sg (KSym x true)).
 
@@ -677,11 +693,11 @@ Qed.
 
 Theorem to_sympy_term_sound s sg t : forall st e st' v,
   to_sympy_term t st = Ok (Some e, st') ->
-  vars_agree s sg t -> divs_nonneg s t ->
+  vars_agree s sg t -> divs_nonneg s t -> pows_nonneg s t ->
   eval s t = Some (SNum v) ->
   exists q, seval sg e = Some q /\ (q == inject_Z v)%Q.
 Proof.
-  induction t as [x|c|o a IHa|o l IHl r IHr|l IHl r IHr|n args ext|alts]; intros st e st' v H VA DN Hev.
+  induction t as [x|c|o a IHa|o l IHl r IHr|l IHl r IHr|n args ext|alts]; intros st e st' v H VA DN PN Hev.
   - simpl in H. inversion H; subst. simpl in Hev. inversion Hev as [Hx].
     exists (inject_Z (sg (KSym x true))). split; [reflexivity|].
     rewrite (VA x (or_introl eq_refl)) in Hx. inversion Hx. reflexivity.
@@ -691,21 +707,21 @@ Proof.
     destruct oe as [ea|]; [|discriminate].
     simpl in Hev. destruct (eval s a) as [[|z|str|fn fa fp|]|] eqn:Eva; try discriminate.
     2:{ destruct o; discriminate. }
-    destruct (IHa _ _ _ _ Ea VA DN eq_refl) as [qa [Hqa Iqa]].
+    destruct (IHa _ _ _ _ Ea VA DN PN eq_refl) as [qa [Hqa Iqa]].
     destruct o; inversion H; subst; inversion Hev; subst.
     + destruct (seval_neg _ _ _ Hqa) as [qn [Hqn En]].
       destruct (seval_add2 sg (SInt 0) (sneg ea) _ _ eq_refl Hqn) as [q [Hq E]].
       exists q. split; [assumption|]. rewrite E, En, Iqa, inject_Z_opp. simpl. ring.
     + rewrite seval_app. simpl. rewrite Hqa. simpl. eexists. split; [reflexivity|]. apply qabs_int. exact Iqa.
-  - simpl in DN. destruct DN as [DNl [DNr DNo]].
+  - simpl in DN. destruct DN as [DNl [DNr DNo]]. simpl in PN. destruct PN as [PNl [PNr PNo]].
     assert (VAl: vars_agree s sg l) by (intros x Hx; apply VA; simpl; apply in_or_app; left; exact Hx).
     assert (VAr: vars_agree s sg r) by (intros x Hx; apply VA; simpl; apply in_or_app; right; exact Hx).
     simpl in Hev. destruct (eval s l) as [[|a|?|? ? ?|]|] eqn:Evl; try discriminate.
     destruct (eval s r) as [[|b|?|? ? ?|]|] eqn:Evr; try discriminate.
     assert (K: forall el er st1 st2, to_sympy_term l st = Ok (Some el, st1) -> to_sympy_term r st1 = Ok (Some er, st2) ->
                exists qa qb, seval sg el = Some qa /\ is_int qa a /\ seval sg er = Some qb /\ is_int qb b).
-    { intros el er st1 st2 H1 H2. destruct (IHl _ _ _ _ H1 VAl DNl eq_refl) as [qa [A1 A2]].
-      destruct (IHr _ _ _ _ H2 VAr DNr eq_refl) as [qb [B1 B2]]. exists qa, qb. repeat split; assumption. }
+    { intros el er st1 st2 H1 H2. destruct (IHl _ _ _ _ H1 VAl DNl PNl eq_refl) as [qa [A1 A2]].
+      destruct (IHr _ _ _ _ H2 VAr DNr PNr eq_refl) as [qb [B1 B2]]. exists qa, qb. repeat split; assumption. }
     simpl in H.
     destruct o; try discriminate;
       (destruct (to_sympy_term l st) as [[ol st1]| | |] eqn:El; simpl in H; try discriminate;
@@ -742,7 +758,8 @@ Proof.
       rewrite Z.rem_mod_nonneg by lia. rewrite Z.mod_eq by lia.
       unfold Z.sub. rewrite inject_Z_plus, inject_Z_opp, inject_Z_mult. unfold Qminus. reflexivity.
     + (* pow *) inversion H; subst.
-      destruct (Z.ltb b 0) eqn:Eb; [discriminate|]. apply Z.ltb_ge in Eb. simpl in Hev. inversion Hev; subst.
+      pose proof (PNo b eq_refl) as Eb.
+      destruct (Z.ltb b 0) eqn:Eb'; [apply Z.ltb_lt in Eb'; lia|]. simpl in Hev. inversion Hev; subst.
       destruct (qpow_int _ _ _ _ Iqa Iqb Eb) as [q [Hq Iq]].
       rewrite (seval_pow2 _ _ _ _ _ Hqa Hqb). exists q. split; assumption.
   - simpl in H. discriminate.
@@ -775,9 +792,21 @@ Theorem div_negdivisor_refuted :
   value_is (TBin BDiv (TSym (SNum 7)) (TBin BMinus (TSym (SNum 0)) (TSym (SNum 2)))) (-3) (-4).
 Proof. split; [reflexivity|]. do 3 eexists. split; [reflexivity|]. split; reflexivity. Qed.
 
-(* no converse: 0 * 2**(0-1) is undefined for clingo (the rule instance is dropped), 0 for sympy *)
+(* 2**(0-1): clingo 0 (negative exponent, non-zero base), sympy 1/2: the proviso [pows_nonneg] is necessary *)
+Theorem pow_negative_refuted :
+  let t := TBin BPow (TSym (SNum 2)) (TBin BMinus (TSym (SNum 0)) (TSym (SNum 1))) in
+  eval s0 t = Some (SNum 0) /\ divs_nonneg s0 t /\ vars_agree s0 sg0 t /\ ~ pows_nonneg s0 t /\
+  exists e st q, to_sympy_term t ([], []) = Ok (Some e, st) /\ seval sg0 e = Some q /\ Qeq_bool q (1 # 2) = true.
+Proof.
+  split; [reflexivity|]. split; [simpl; tauto|]. split; [intros x []|]. split.
+  - intros (_ & _ & A). specialize (A (-1)%Z eq_refl). lia.
+  - do 3 eexists. split; [reflexivity|]. split; reflexivity.
+Qed.
+
+(* no converse: 0 * c (c a symbolic constant) is undefined for clingo (the rule instance is dropped), 0 for
+   sympy.  (With the old, wrong reading of `**` the witness was 0 * 2**(0-1); clingo evaluates that to 0.) *)
 Theorem converse_refuted :
-  let t := TBin BMul (TSym (SNum 0)) (TBin BPow (TSym (SNum 2)) (TBin BMinus (TSym (SNum 0)) (TSym (SNum 1)))) in
+  let t := TBin BMul (TSym (SNum 0)) (TFun "c" [] false) in
   eval s0 t = None /\
   exists e st q, to_sympy_term t ([], []) = Ok (Some e, st) /\ seval sg0 e = Some q /\ Qeq_bool q (inject_Z 0) = true.
 Proof. split; [reflexivity|]. do 3 eexists. split; [reflexivity|]. split; reflexivity. Qed.
@@ -951,6 +980,7 @@ Print Assumptions mod_negative_refuted.
 Print Assumptions mod_negdivisor_refuted.
 Print Assumptions div_negdivisor_refuted.
 Print Assumptions converse_refuted.
+Print Assumptions pow_negative_refuted.
 Print Assumptions to_sympy_term_registers.
 Print Assumptions fun0_not_registered.
 Print Assumptions new_mul_keeps_sumplus.
